@@ -79,6 +79,9 @@ def _mk_exc_classes() -> dict[str, type]:
 
 
 EXC_CLASSES = _mk_exc_classes()
+# the same classes (same `__name__`, same bases) whose INSTANCES are falsy — an aggregate error with an empty
+# member list (`__len__` == 0): `if exc:` is not `if exc is not None:`
+EXC_CLASSES_FALSY = {k: type(c.__name__, (c,), {"__len__": lambda self: 0}) for k, c in EXC_CLASSES.items()}
 
 
 _CAUSE_MARK = LookupError("the operation's own `raise … from` cause")
@@ -190,13 +193,14 @@ def parse_ans(s: str) -> Ans:
     raise ValueError(s)
 
 
-def make_exception(tok: str) -> BaseException:
+def make_exception(tok: str, falsy_ok: bool = False) -> BaseException:
     """Build the Python exception object for a `raise` answer token (cf. Wire.exnTok)."""
     p = tok.split(":")
     k = p[0]
     e: BaseException
     if k == "ordinary":
-        e = EXC_CLASSES[p[2]](f"boom{p[1]}")
+        # every third exception token is a falsy instance (deterministic in the token, so replays agree)
+        e = (EXC_CLASSES_FALSY if falsy_ok and int(p[1]) % 3 == 0 else EXC_CLASSES)[p[2]](f"boom{p[1]}")
         e._ref = f"o{p[1]}"  # type: ignore[attr-defined]
     elif k == "abort":
         e = AbortRetryError()
@@ -589,7 +593,9 @@ class Env:
         cache = self.__dict__.setdefault("_op_exc_cache", {})
         e = cache.get(tok)
         if e is None:
-            e = make_exception(tok)
+            # not with the sync attempt timeout: CPython's `concurrent.futures.Future.result()` itself tests
+            # `if self._exception:` and RETURNS None for a falsy exception — the standard library's doing
+            e = make_exception(tok, falsy_ok=not self.cfg.has("attempt_timeout"))
             try:
                 e._from_op = True  # type: ignore[attr-defined]
             except AttributeError:
